@@ -181,14 +181,21 @@ static void q_cmp(slot_t *s)
         cov3(110 + rt, state_class(s), cls * 4 + want + 1);
     } else if (form == 1) {                            /* cmp_with_ptr */
         rt = vh_coin(50);
-        /* a pointer operand longer than the object: baseline reads past the object's block (abort) -- probe cases only */
-        if (kn > n && !probe_case) { free(p); cls = K_PREFIX; p = mk_operand(s, cls, &kn); }
-        want = m_cmp(s->m, n, p, kn);
+        /* cmp_with_ptr(o, p, k) compares the first k bytes of the object with p[0..k) -- the semantics the repository's own tests pin
+         * (e.g. "is is " vs ("is is", 5) is EQUAL).  Strong where the ideal sequence defines the answer: k <= len, or the two differ
+         * inside the object's bytes.  Weak (any comparison result, no memory error) when the object is a strict prefix of the operand:
+         * the ideal sequence has no bytes there. */
+        {
+            long common = kn < n ? kn : n;
+            int d = common > 0 ? memcmp(s->m, p, (size_t) common) : 0;
+            want = d < 0 ? -1 : d > 0 ? 1 : (kn <= n ? 0 : 2);
+        }
         snprintf(what, sizeof what, "cmp_with_ptr[%s](len %ld, %s operand len %ld)", rt ? "class" : "direct", n, KNAME[cls], kn);
         vh_op("query %s", what);
         got = (int) X_cmp_with_ptr(rt, o, p, kn);
         rel = relation(s, p, kn);
-        Q(got == want, rel == 1 ? "cmp_with_ptr:prefix" : rel == 2 ? "cmp_with_ptr:longer" : "cmp_with_ptr:sign", "%s = %d, ideal %d (%s)", what, got, want, desc(s));
+        if (want == 2) { Q(got >= -1 && got <= 1, "cmp_with_ptr:range", "%s = %d is not a comparison result", what, got); vh_count("cmp_with_ptr_weak_region", 1); }
+        else Q(got == want, "cmp_with_ptr:sign", "%s = %d, ideal %d over the first %ld bytes (%s)", what, got, want, kn, desc(s));
         vh_count(kn > n ? "cmp_with_ptr_operand_longer" : "cmp_with_ptr_operand_not_longer", 1);
         cov3(114 + rt, state_class(s), cls * 4 + want + 1);
     } else if (form == 2) {                            /* ncmp with an object */
